@@ -46,6 +46,7 @@ def serialize_json(
     key = guess_key(private_key, _member, True)
     key.check_use("sig")
     alg = registry.get_alg(headers["alg"])
+    alg.check_key_type(key)
 
     if _member.protected:
         protected_segment = json_b64encode(_member.protected)
